@@ -369,6 +369,53 @@ def run_reject_case(a):
         common.rmtree(root)
 
 
+def run_init_case(a):
+    """`init` takes the same settings as flags; the generation it runs at the end must obey them (flag > file > default) whatever
+    configuration documents lie around, and the document it writes must carry them"""
+    cli, layout, vflag = a
+    root = common.scratch("c19i")
+    try:
+        app = os.path.join(root, "app")
+        projrel = "./backend" if layout == "other-project-dir" else "./src-tauri"
+        make_project(os.path.join(app, projrel), "init_cmd")
+        other = "none" if vflag == "zod" else "zod"
+        json.dump({"productName": "app"}, open(os.path.join(app, projrel, "tauri.conf.json"), "w"))
+        argv = [cli, "tauri-typegen", "init", "-p", projrel, "-g", "./gen", "-v", vflag]
+        written = os.path.join(app, projrel, "tauri.conf.json")
+        if layout in ("custom-config-file", "custom-config-file+cwd-document-disagrees"):
+            argv += ["-o", "typegen.custom.json"]
+            written = os.path.join(app, "typegen.custom.json")
+        if layout in ("cwd-document-disagrees", "custom-config-file+cwd-document-disagrees", "other-project-dir"):
+            # a configuration document the later generate step would discover from the cwd, saying something else
+            json.dump({"productName": "cwd", "plugins": {"typegen": {"projectPath": projrel, "outputPath": "./elsewhere", "validationLibrary": other}}},
+                      open(os.path.join(app, "tauri.conf.json"), "w"))
+        r = common.run(argv, cwd=app)
+        label = "init -v %s, layout %s" % (vflag, layout)
+        viol = []
+        if r.rc != 0:
+            viol.append(("C19 init-fails layout=%s" % layout, "%s: exit %s %s" % (label, r.rc, (r.err + r.out)[-200:])))
+            return {"viol": viol, "label": label}
+        tp = os.path.join(app, "gen", "types.ts")
+        if not os.path.exists(tp):
+            where = [os.path.relpath(os.path.join(dp, f), app) for dp, _, fs in os.walk(app) for f in fs if f == "types.ts"]
+            viol.append(("C19 precedence setting=output expected=flag entry=init layout=%s" % layout, "%s: -g ./gen given, but types.ts was written to %s" % (label, where)))
+        else:
+            is_zod = "from 'zod'" in open(tp).read()
+            if is_zod != (vflag == "zod"):
+                viol.append(("C19 precedence setting=validation expected=flag entry=init layout=%s" % layout,
+                             "%s: the bindings generated by init are %s" % (label, "Zod schemas" if is_zod else "plain TypeScript")))
+        try:
+            doc = json.load(open(written))
+            lib = doc.get("validation_library") if written.endswith("custom.json") else doc.get("plugins", {}).get("typegen", {}).get("validationLibrary")
+            if lib != vflag:
+                viol.append(("C19 init-writes-other-setting layout=%s" % layout, "%s: the written document says validation library %r" % (label, lib)))
+        except (OSError, ValueError) as e:
+            viol.append(("C19 init-document-unreadable layout=%s" % layout, "%s: %s" % (label, e)))
+        return {"viol": viol, "label": label}
+    finally:
+        common.rmtree(root)
+
+
 def run(tier):
     v = Verdict("C19", "exploration", tier)
     cli = common.build_cli()
@@ -416,6 +463,13 @@ def run(tier):
         v.count("rejection_cases")
         for (sig, what) in r["viol"]:
             v.violation(sig, what, {"kind": job[1], "source": job[2]})
+    ijobs = [(cli, layout, vflag) for layout in ("standard", "other-project-dir", "custom-config-file", "cwd-document-disagrees", "custom-config-file+cwd-document-disagrees")
+             for vflag in ("zod", "none")]
+    for (job, r) in zip(ijobs, common.pmap(run_init_case, ijobs)):
+        v.case(("init", job[1], job[2]), nontrivial=True, sample={"kind": "init-precedence", "case": r["label"]} if len(v.samples) < 10 else None)
+        v.count("init_precedence_cases")
+        for (sig, what) in r["viol"]:
+            v.violation(sig, what, {"layout": job[1], "flag": job[2]})
     v.extra["precedence_matrix_cells"] = len(cells)
     rule = ("cases are (i) generated JSON documents (nesting <= 6, Unicode/escaped strings, integers over the i64/u64 range, decimals/exponents, 7 shapes "
             "of the plugins section) written through `init` or save_to_tauri_config and re-read exactly; (ii) every cell of the 2^5 flag-subset x "
